@@ -672,6 +672,47 @@ theorem C20_abstract_never_bound_any_order (tab : Tab) (ps ps' : List ProvStmt) 
   rw [← hr r] at hi
   exact C20_abstract_never_bound tab ps b hb r i hi
 
+/-- `Service.__init_subclass__` registers a provider in the bank of EVERY Service ancestor of its MRO — whatever stands
+between them (mixins: plain classes, ABCs, `typing.Generic`; several interfaces) and at whatever position of the bases the
+interface is named: after a class statement that did not raise, the class is bound under all its references in its own bank
+and in the bank of every MRO entry that is a Service subclass. -/
+theorem C20_registered_in_every_ancestor (tab : Tab) (s : ProvStmt) (st : St) (hc : isabstract tab s.k = false)
+    (h : (initSubclass st (s.toDef tab)).2 = none) (i : ClassId) (hi : i = s.id ∨ (i, true) ∈ s.mro) (r : Ref)
+    (hr : r ∈ refs (s.toDef tab)) :
+    lookupRef r (getBank i (initSubclass st (s.toDef tab)).1.banks).provider = some s.id := by
+  apply initSubclass_registers (s.toDef tab) hc st h i _ r hr
+  rcases hi with hi | hi
+  · subst hi; exact List.mem_cons_self
+  · refine List.mem_cons_of_mem _ ?_
+    simp only [ProvStmt.toDef, serviceParents, List.mem_map, List.mem_filter]
+    exact ⟨(i, true), ⟨hi, rfl⟩, rfl⟩
+
+/-- the MRO filter that stops at the first entry that is no Service subclass -/
+def serviceParentsPrefix (mro : List (ClassId × Bool)) : List ClassId := (mro.takeWhile (·.2)).map (·.1)
+
+def C20_registered_prefix_full : Prop :=
+  ∀ (mro : List (ClassId × Bool)) (i : ClassId), (i, true) ∈ mro → i ∈ serviceParentsPrefix mro
+
+/-- Why the whole MRO has to be filtered: a loop that `break`s at the first non-Service entry loses the interface of
+`class Impl(Mixin, Interface)` — the provider would be bound in its own bank only. -/
+theorem C20_registered_prefix_counterexample : ¬ C20_registered_prefix_full := by
+  intro h
+  have := h [(⟨⟨9, none⟩, 9⟩, false), (⟨⟨0, none⟩, 0⟩, true)] ⟨⟨0, none⟩, 0⟩ (by decide)
+  revert this
+  decide
+
+/-- non-vacuity: `class Impl(Mixin, Base, Side)` — a plain mixin ahead of two interfaces — is bound by alias and by
+qualified name in its own bank and in the banks of both interfaces -/
+example :
+    let base : ClassId := ⟨⟨0, none⟩, 0⟩
+    let side : ClassId := ⟨⟨0, none⟩, 3⟩
+    let s : ProvStmt := ⟨⟨⟨1, some 5⟩, 1⟩, some 5, 1, [(⟨⟨0, none⟩, 9⟩, false), (base, true), (side, true), (⟨⟨8, none⟩, 8⟩, false)], []⟩
+    let tab := build [⟨true, [(1, .func true)], [], []⟩, ⟨false, [(1, .func false)], [0], [0]⟩]
+    let st := (initSubclass St.empty (s.toDef tab)).1
+    isabstract tab s.k = false ∧ (initSubclass St.empty (s.toDef tab)).2 = none ∧
+      [s.id, base, side].all (fun i => lookupRef (.alias 5) (getBank i st.banks).provider == some s.id
+        && lookupRef (.qual s.id) (getBank i st.banks).provider == some s.id) = true := by decide
+
 /-- …and at the level of the process: whatever was imported or looked up before, by alias or by qualified name,
 `Service[reference]` never returns a class that is abstract in that sense. -/
 theorem C20_lookup_never_abstract (tab : Tab) (wt : WorldT) (st : St) (iface : ClassId) (r : Ref)
@@ -690,8 +731,9 @@ example :
     let tab := build shapeStmts
     let ifc : ClassId := ⟨⟨0, none⟩, 2⟩
     let ps : List ProvStmt :=
-      [ ⟨ifc, none, 2, [], [⟨1, none⟩]⟩, ⟨⟨⟨1, some 3⟩, 3⟩, some 3, 3, [ifc], []⟩, ⟨⟨⟨1, some 5⟩, 5⟩, some 5, 5, [ifc], []⟩,
-        ⟨⟨⟨1, some 7⟩, 7⟩, none, 7, [ifc], []⟩, ⟨⟨⟨1, some 13⟩, 13⟩, none, 13, [ifc], []⟩ ]
+      [ ⟨ifc, none, 2, [], [⟨1, none⟩]⟩, ⟨⟨⟨1, some 3⟩, 3⟩, some 3, 3, [(ifc, true)], []⟩,
+        ⟨⟨⟨1, some 5⟩, 5⟩, some 5, 5, [(⟨⟨9, none⟩, 9⟩, false), (ifc, true)], []⟩,
+        ⟨⟨⟨1, some 7⟩, 7⟩, none, 7, [(ifc, true)], []⟩, ⟨⟨⟨1, some 13⟩, 13⟩, none, 13, [(ifc, true), (⟨⟨9, none⟩, 8⟩, false)], []⟩ ]
     collisionFree (ps.map (·.toDef tab)) = true ∧
       (match addAll Bank.empty (ps.map (·.toDef tab)) with
        | .ok b => some ([Ref.qual ifc, .alias 3, .qual ⟨⟨1, some 5⟩, 5⟩, .qual ⟨⟨1, some 7⟩, 7⟩,
